@@ -56,6 +56,9 @@ CrashOk(ev) ==
   /\ \A k \in DOMAIN conf :
        IF k \in DOMAIN R
        THEN \/ Absorbs(R[k], conf[k])
+            \* the confirmed delete was old enough to be collected, and what is left of the key is a delete too (a delete of the
+            \* same key with a smaller stamp - same time, lower replica id - that arrived later): the key is gone either way
+            \/ (GcLegal(k) /\ IsTomb(conf[k]) /\ IsTomb(R[k]))
             \/ (Dev("gc_ignores_outside") /\ GcLegal(k) /\ k \in gcOut)   \* an older value resurfaced after GC: only where a compaction
                                                                           \* dropped the tombstone although a segment outside it held the key
        ELSE GcLegal(k)
